@@ -158,6 +158,14 @@ pub fn check_spec(ctx: &Ctx, rep: &mut Report, fx: Option<&Fixture>, n: u64, d: 
                 let mut s = String::new();
                 let i = QueryStatementBuilder::build_collect_any(&wq, qb(d), &mut s);
                 let (p, v) = QueryStatementBuilder::build_any(&wq, qb(d));
+                // every typed entry point of WithQuery must agree with its dynamic ones
+                let eps = crate::render::all_entry_points(&wq, d);
+                for (label, text) in &eps.inline {
+                    assert!(*text == i, "WithQuery inline entry point {label} differs: {text} vs {i}");
+                }
+                for (label, text, vals) in &eps.param {
+                    assert!(*text == p && format!("{vals:?}") == format!("{:?}", v.0), "WithQuery parameterised entry point {label} differs: {text} vs {p}");
+                }
                 (i, p, v.0)
             });
             match r {
@@ -171,7 +179,12 @@ pub fn check_spec(ctx: &Ctx, rep: &mut Report, fx: Option<&Fixture>, n: u64, d: 
                     }
                 }
                 Err(p) => {
-                    rep.violation("R.panic", d.name(), format!("WithQuery {}", panic_sig(&p)), json!({"panic": p}), ctx.shard, n);
+                    if p.contains("WithQuery") && p.contains("entry point") {
+                        let which = p.split(" differs").next().unwrap_or("").to_string();
+                        rep.violation("R.entry", d.name(), format!("{which} differs: {}", sigk()), json!({"detail": p}), ctx.shard, n);
+                    } else {
+                        rep.violation("R.panic", d.name(), format!("WithQuery {}", panic_sig(&p)), json!({"panic": p}), ctx.shard, n);
+                    }
                     return;
                 }
             }
